@@ -6,7 +6,7 @@ from verif.spec import PropertySpec
 PROPERTY = PropertySpec(
     id='C05',
     contracts=[SolveContract(), SolvePeriodContract()],
-    bounded=[],
+    bounded=[SolveTScripted()],
     level='other',
     explanation='SolverMixin.solve (with iter_periods and PeriodIter inlined from source) and solve_period are proved against a ghost '
                 'call log of the single-period solver: exactly the positions pos(start)..pos(end) in order, caller options forwarded '
